@@ -245,6 +245,7 @@ def alternatives(subpattern_items, translator):
 def _solve(constraints, s, timeout_ms=20000):
     sol = z3.Solver()
     sol.set('timeout', timeout_ms)
+    sol.set('rlimit', max(1, timeout_ms) * 12000)        # deterministic backstop (see pv/smt.py)
     for c in constraints:
         sol.add(c)
     t0 = time.time()
